@@ -3,7 +3,7 @@
    Both store variants are covered: [e_keep E] = false is InMemoryStore.cloneConsumerGroup
    as it is today (drops SessionTimeoutMs / RebalanceTimeoutMs; that defect is C17's),
    true is the etcd codec / the fixed clone. *)
-From KS Require Import lib.Base model.Coordinator proofs.CoordinatorBase proofs.CoordinatorProofs.
+From KS Require Import lib.Base model.Coordinator proofs.CoordinatorBase proofs.CoordinatorProofs proofs.CoordinatorTrace.
 Open Scope Z_scope.
 
 (* (1) for every reachable state (any history, failover at any point between requests):
@@ -39,6 +39,24 @@ Theorem C15_members_keep_working : forall E h now g mid,
                               off_get (t, p) (s_off s') = off).
 Proof. intros E h. intros. eapply c15_members_keep_working; [apply run_inv|eassumption..]. Qed.
 Print Assumptions C15_members_keep_working.
+
+(* (3) liveness data survive: the coordinator that takes over sees for every member the same
+       lastHeartbeat (persisted at every accepted heartbeat / join), the same session
+       timeout when the store keeps timeouts (etcd, InMemoryStore after the C17 fix), and
+       for a Stable group no rebalance deadline; hence the cleanup criterion [survives]
+       gives the same verdict for every tick time before and after the failover: together
+       with C43_live_kept (which holds in every reachable state, so also after failovers)
+       a member that keeps heartbeating within its session timeout is not evicted by the
+       new coordinator's ticks, and by (2) its requests keep being accepted. *)
+Theorem C15_liveness_preserved : forall E h n0 n1 g k m,
+  cur (run E h) n0 = Some g -> alookup k (g_members g) = Some m ->
+  exists g' m', cur (failover (run E h)) n1 = Some g' /\ alookup k (g_members g') = Some m' /\
+    m_hb m' = m_hb m /\ (e_keep E = true -> m_session m' = m_session m) /\
+    (g_phase g = PStable -> g_deadline g' = None) /\
+    (e_keep E = true -> g_phase g = PStable -> g_deadline g = None ->
+     forall now, survives now g' m' = survives now g m).
+Proof. intros E h n0 n1 g k m. apply c15_liveness_preserved. apply run_inv. Qed.
+Print Assumptions C15_liveness_preserved.
 
 (* non-vacuity: a two-member Stable group with assignments; failover; same replies *)
 Example C15_nonvacuous :
